@@ -11,12 +11,14 @@ checks_for() { case "$1" in
   C10_*) echo "C10";; C11_*) echo "C11";; C12_*) echo "C12";; C13_*) echo "C13";; C14_*) echo "C14";; C15_*) echo "C15 C09";; C16_*) echo "C16";;
   C17_*) echo "C17";; C18_*) echo "C18";; C19_*) echo "C19";; C20_*) echo "C20";;
   R2_C01_a) echo "C01 C09";; R2_C01_b) echo "C01";; R2_C02_*) echo "C02";; R2_C03_*) echo "C03";; R2_C04_*) echo "C04";; R2_C08_*) echo "C08";; R2_C09_*) echo "C09";;
-  R2_C10_*) echo "C10";; R2_C11_*) echo "C11";; R2_C17_*) echo "C17";; R2_C18_a) echo "C18 C04";; R2_C18_b) echo "C18 C10";; esac; }
-for d in /verif/seeded/C??_? /verif/seeded/R2_C??_?; do
+  R2_C10_*) echo "C10";; R2_C11_*) echo "C11";; R2_C17_*) echo "C17";; R2_C18_a) echo "C18 C04";; R2_C18_b) echo "C18 C10";;
+  R3_C*) echo "$1" | sed 's/R3_\(C[0-9]*\)_.*/\1/';; esac; }
+for d in /verif/seeded/C??_? /verif/seeded/R2_C??_? /verif/seeded/R3_C??_?; do
   id=$(basename $d)
-  (cd $WT && git checkout -q -- . && git apply $d/patch.diff) || { echo "$id APPLY_FAILED" >> "$OUT"; continue; }
+  P=$d/patch.diff; [ -f $d/patch_rebased.diff ] && P=$d/patch_rebased.diff
+  (cd $WT && git checkout -q -- . && git apply $P) || { echo "$id APPLY_FAILED" >> "$OUT"; continue; }
   for c in $(checks_for $id); do
-    out=$(DFOLS_REPO=$WT /verif/bin/check $c 2>&1); rc=$?
+    out=$(DFOLS_REPO=$WT DFOLS_VERIF_OUT=${MUT_OUT:-/tmp/mut_out} /verif/bin/check $c 2>&1); rc=$?
     echo "$id $c rc=$rc clauses: $(echo "$out" | grep '^VIOLATION' | sed 's/.*clause=\([^ ]*\).*/\1/' | sort | uniq -c | sort -rn | head -4 | awk '{printf "%s(x%s) ", $2, $1}')" >> "$OUT"
   done
 done
